@@ -156,3 +156,50 @@ def design_proof(res, module, what=""):
             raise vlib.Machinery(f"tlapm {module} failed: " + r["stdout"][-1500:])
     res.clause("DesignProof_" + module, 1, 0 if r["ok"] else 1)
     return r["ok"]
+
+
+_CALL_KEYS = ("cls", "nodes", "edges", "ew", "nw", "mode", "wt", "num", "den", "k", "ign", "cons", "cov", "covlen", "elen", "nlen",
+              "starts", "ends", "escale", "sws", "plr", "plf", "opt", "cons_kind", "float_data")
+
+
+def presolve_off_probe(records):
+    """Re-run the given (violating) model records with the solver's presolve switched off - same class, same input, same
+    options.  If the library itself then reports a strictly better objective (or solves what it did not solve), the answer
+    was cut off inside the solver: recorded on the record as highs_presolve_changes_optimum (used only to match the known
+    finding about HiGHS presolve narrowly).  Says nothing about what the right answer is."""
+    redo = []
+    for r0 in records:
+        if "cls" not in r0 or r0.get("highs_presolve_changes_optimum") is not None:
+            continue
+        x = {k: v for k, v in r0.items() if k in _CALL_KEYS}
+        for key in ("ign", "cons", "starts", "ends", "escale", "sws", "plr", "plf", "elen", "nlen", "ew", "nw"):
+            if x.get(key) == []:          # defaults filled in by the normaliser: not part of the original call
+                x.pop(key)
+        if "cons" not in x:
+            x.pop("cov", None)
+            x.pop("cons_kind", None)
+        if x.get("k") == vlib.NONE:
+            x.pop("k")
+            if r0.get("k_none"):
+                x["k_none"] = True
+        if x.get("covlen", [0, 1])[0] == 0:
+            x.pop("covlen", None)
+        x["sopt"] = {"presolve": "off"}
+        x["id"] = len(redo) + 1
+        redo.append((x, r0))
+    if not redo:
+        return
+    for (x, r0), o in zip(redo, drive([x for x, _ in redo])):
+        r0["obj_presolve_off"] = o["obj"]
+        better = o["solved"] and o["obj"] != vlib.NONE and r0.get("obj", vlib.NONE) != vlib.NONE and o["obj"] < r0["obj"] - 1
+        r0["highs_presolve_changes_optimum"] = bool(better or (o["solved"] and not r0.get("solved")))
+
+
+def attribute_presolve(res, known):
+    """before finish(): probe the records of violations that no known finding matches yet (presolve_off_probe)."""
+    todo = []
+    for clause, rec, extra in res.violations:
+        if isinstance(rec, dict) and "cls" in rec and vlib.match_known(known, res.prop, clause, rec) is None:
+            todo.append(rec)
+    if todo:
+        presolve_off_probe(todo[:40])
